@@ -11,6 +11,7 @@ from stix2.environment import ObjectFactory
 from stix2.exceptions import ImmutableError, STIXError
 
 from engine.hlib import Native, V, pick, pickb
+from props import gen
 
 M1 = "marking-definition--613f2e26-407d-48c7-9eca-b8e91df99dc9"
 UU = "311b2d2d-f010-4473-83ec-1edf84858f4c"
@@ -186,6 +187,56 @@ def run_deepcopy_case(oi, how):
     return o.serialize() == before
 
 
+# ---- a deep copy of an instance of every class equals its original and prints the same text, whatever form its timestamps were given in
+BUILDABLE = gen.buildable()[0]
+NBUILD = len(BUILDABLE)
+CREATED_FORMS = [None, "2020-01-01T00:00:00Z", "2020-01-01T00:00:00.000Z", "2020-01-01T00:00:00.120000Z", "2020-01-01T00:00:00.123456Z"]
+
+
+def deepcopy_every_class(bi: int) -> bool:
+    """
+    pre: 0 <= bi < NBUILD
+    post: _
+    """
+    bi = pick(bi, NBUILD)
+    with Native():
+        ok = all(run_deepcopy_class_case(bi, f) for f in range(len(CREATED_FORMS)))
+    V.reached()
+    return ok
+
+
+def run_deepcopy_class_case(bi, fi):
+    ver, cat, name, cls, kw = BUILDABLE[bi]
+    kw = copy.deepcopy(kw)
+    if CREATED_FORMS[fi] is not None:
+        if "created" not in cls._properties:
+            return True
+        kw["created"] = CREATED_FORMS[fi]
+        if "modified" in cls._properties:
+            kw["modified"] = CREATED_FORMS[fi]
+    o = cls(**kw)
+    before = o.serialize()
+    c = copy.deepcopy(o)
+    c2 = copy.deepcopy(c)
+    return type(c) is type(o) and c == o and c.serialize() == before and c2.serialize() == before and o.serialize() == before
+
+
+def timestamp_copies(pi: int, ci: int, us: int, how: int) -> bool:
+    """
+    pre: 0 <= pi <= 2 and 0 <= ci <= 1 and 0 <= us <= 3 and 0 <= how <= 2
+    post: _
+    """
+    import pickle
+    from stix2.utils import STIXdatetime, format_datetime
+    pi, ci, us, how = pick(pi, 3), pick(ci, 2), pick(us, 4), pick(how, 3)
+    with Native():
+        x = STIXdatetime(2020, 1, 2, 3, 4, 5, [0, 120000, 123000, 123456][us], precision=["any", "second", "millisecond"][pi], precision_constraint=["exact", "min"][ci])
+        c = copy.copy(x) if how == 0 else copy.deepcopy(x) if how == 1 else pickle.loads(pickle.dumps(x))
+        ok = c == x and type(c) is type(x) and format_datetime(c) == format_datetime(x) and c.precision == x.precision and c.precision_constraint == x.precision_constraint
+    V.reached()
+    return ok
+
+
 # ---- arguments are value-identical before and after every public operation
 def arg_cases():
     od20 = {"type": "observed-data", "id": "observed-data--" + UU, "created": "2020-01-01T00:00:00.000Z", "modified": "2020-01-01T00:00:00.000Z",
@@ -200,7 +251,7 @@ def arg_cases():
     return od20, mal, f21, email
 
 
-OPS = 20
+OPS = 25
 
 
 def arguments_unchanged(op: int, twice: bool) -> bool:
@@ -258,6 +309,22 @@ def run_arg_case(op, twice):
         18: ([objs16, rel16], lambda: MemoryStore(objs16).add(rel16)),
         19: ([kw, dflt8], lambda: env8.create(stix2.v21.Malware, **kw)),
     })
+    ind20 = {"type": "indicator", "id": "indicator--" + UU, "created": "2020-01-01T00:00:00.000Z", "modified": "2020-01-01T00:00:00.000Z",
+             "pattern": "[file:name = 'x']", "valid_from": "2020-01-01T00:00:00Z", "labels": ["benign"]}
+    ind20b = dict(ind20, id="indicator--" + UU.replace("3", "4"))
+    objs20 = [od20]
+    one20, one21 = [ind20], [rel16]
+    rel16b = dict(rel16, id="relationship--" + UU.replace("3", "5"))
+    kw24 = dict(kw)
+    del kw24["external_references"]
+    table.update({
+        20: ([objs20, ind20], lambda: stix2.v20.Bundle(objs20, ind20)),
+        21: ([objs20, ind20, ind20b], lambda: stix2.v20.Bundle(objs20, ind20, objects=[ind20b])),
+        22: ([objs20, one20, ind20b], lambda: stix2.v20.Bundle(objs20, one20, ind20b)),
+        23: ([objs16, one21, rel16b], lambda: stix2.v21.Bundle(objs16, one21, rel16b)),
+        # ONE factory with list defaults, per-call values given singly (appended to the defaults)
+        24: ([kw24, dflt8, marks8], lambda: factory8.create(stix2.v21.Malware, object_marking_refs=M2, external_references={"source_name": "e", "external_id": "3"}, **kw24)),
+    })
     args, fn = table[op]
 
     def dump():
@@ -280,7 +347,7 @@ def run_arg_case(op, twice):
                 outcomes.append("reuse-refused")
         if dump() != snap:
             return False
-    if op in (8, 19) and len(results) == 2 and op == 8:
+    if op in (8, 24) and len(results) == 2:
         # a factory's defaults are the factory's: the second object is built from the same defaults as the first
         strip = lambda o: {k: v for k, v in json.loads(o.serialize()).items() if k not in ("id", "created", "modified")}   # noqa: E731
         if strip(results[0]) != strip(results[1]) or len(results[0]["external_references"]) != 2 or len(results[0]["object_marking_refs"]) != 2:
